@@ -191,6 +191,11 @@ func runC10(w *vx.W) {
 		}
 	}
 	// larger than the internal 4096-byte buffer
+	for _, e := range []string{"Decode", "CheckIntegrity"} {
+		// data areas that are an exact multiple of the decoder's buffer
+		runEnv(c10Case{s4096, sMin12.B, e}, false, 2)
+		runEnv(c10Case{s8192, sMin12.B, e}, false, 2)
+	}
 	for _, e := range []string{"Decode", "CheckIntegrity", "DecodeHeaderAndFileID"} {
 		runEnv(c10Case{sBig, sMin12.B, e}, false, 2)
 		if thorough {
@@ -207,7 +212,7 @@ func runC10(w *vx.W) {
 	}
 	chunks = append(chunks, 4095, 4096, 4097, 8192)
 	var idx int64
-	for _, s := range []namedStream{sBig, sChainBig, sAct3, sChain3} {
+	for _, s := range []namedStream{sBig, s4096, s8192, sChainBig, sAct3, sChain3} {
 		for _, e := range append(entries, "DecodeChained") {
 			if len(s.Members) > 1 && e != "DecodeChained" {
 				continue
